@@ -120,6 +120,24 @@ func (fr *Frame) rd(st *State, comp, srt string, ref Term) Term {
 		}
 		return t
 	case rcFresh:
+		a := fr.ctx.get(st, "N|"+comp, srt)
+		// syntactic read-over-write for locally allocated objects: values flow through directly
+		for {
+			info, ok := fr.v.storeInfo[a]
+			if !ok {
+				break
+			}
+			if info.ref == ref {
+				return info.row
+			}
+			if fr.v.knownNonNil[baseRef(info.ref)] && fr.v.knownNonNil[baseRef(ref)] && (baseRef(info.ref) != baseRef(ref) || info.ref != ref) {
+				if baseRef(info.ref) != baseRef(ref) {
+					a = info.base
+					continue
+				}
+			}
+			break
+		}
 		return sel(fr.ctx.get(st, "N|"+comp, srt), ref)
 	}
 	return ite(lt(baseRef(ref), entryNxt), sel(fr.ctx.get(st, comp, srt), ref), sel(fr.ctx.get(st, "N|"+comp, srt), ref))
@@ -140,7 +158,9 @@ func (fr *Frame) wr(st *State, comp, srt string, ref Term, row Term) *State {
 	case rcFresh:
 		fr.touch("N|"+comp, srt)
 		a := fr.ctx.get(st, "N|"+comp, srt)
-		return st.with("N|"+comp, fr.nameTerm(store(a, ref, row), "N|"+comp, srt))
+		nt := fr.nameTerm(store(a, ref, row), "N|"+comp, srt)
+		fr.v.storeInfo[nt] = storeRec{base: a, ref: ref, row: row}
+		return st.with("N|"+comp, nt)
 	}
 	fr.touch(comp, srt)
 	fr.touch("N|"+comp, srt)
@@ -1277,4 +1297,10 @@ func (fr *Frame) markOld(x Term) {
 	if fr.v.entryReads[x] {
 		fr.v.oldRefs[x] = true
 	}
+}
+
+type storeRec struct {
+	base Term
+	ref  Term
+	row  Term
 }
